@@ -1,7 +1,165 @@
 /-
-  C20 — property theorems (see DESIGN.md §5 C20).
+  C20 — Copy / Move / Remove of a .dsc / .changes with the files it lists, over the
+  abstract file system of Model/Upload.lean: listed names that are not plain file names
+  and a control file that lists itself stop everything before any step; nothing outside
+  the two directories is touched and only listed names change; the control file goes last,
+  so its presence in the destination certifies a complete upload and a failure never
+  leaves one there; removal deletes the control file last.
+  Property theorems only; lemmas live in GoDebian/Lemmas/Upload.lean.
 -/
 import GoDebian.Model.Upload
+import GoDebian.Lemmas.Upload
 
 namespace GoDebian.Props.C20
+open GoDebian GoDebian.Upload
+
+/-- whatever names are listed, a name that is not a plain file name stops everything
+    before any step -/
+theorem C20_nonplain_noop (op : Op) (s : State) (ctl : Bytes) (names : List Bytes)
+    (h : names.all plain = false) : exec op s ctl names = ⟨s, false, false⟩ :=
+  Lemmas.Upload.exec_nonplain op s ctl names h
+
+/-- "../x", "sub/x", "/abs", "..", "." and "" among otherwise fine names -/
+example :
+    let B := Bytes.ofString
+    [[B "a.tar.gz", B "../x"], [B "sub/x"], [B "/abs"], [B ".."], [B "."], [[]]].all
+      (fun names => names.all plain = false) = true ∧
+    [B "a.tar.gz", B "..a", B "a b"].all plain = true := by
+  decide +kernel
+
+/-- a control file that lists itself: nothing happens -/
+theorem C20_self_listing_noop (op : Op) (s : State) (ctl : Bytes) (names : List Bytes)
+    (h : names.contains ctl = true) :
+    (exec op s ctl names).ok = false ∧ (exec op s ctl names).state = s :=
+  Lemmas.Upload.exec_self_listing op s ctl names h
+
+example :
+    let B := Bytes.ofString
+    [B "a.tar.gz", B "a.dsc"].contains (B "a.dsc") = true ∧
+    [B "a.tar.gz", B "a.dsc"].all plain = true := by
+  decide +kernel
+
+/-- nothing outside the two directories is ever touched -/
+theorem C20_confined (op : Op) (s : State) (ctl : Bytes) (names : List Bytes) :
+    (exec op s ctl names).state.outside = s.outside :=
+  (Lemmas.Upload.exec_frame op s ctl names).1
+
+/-- the destination kind never changes and only names among `names ++ [ctl]` change in
+    either directory -/
+theorem C20_only_listed (op : Op) (s : State) (ctl : Bytes) (names : List Bytes) (n : Bytes)
+    (h : n ∉ names ∧ n ≠ ctl) :
+    get (exec op s ctl names).state.src n = get s.src n ∧
+    get (exec op s ctl names).state.dest n = get s.dest n :=
+  (Lemmas.Upload.exec_frame op s ctl names).2 n h
+
+/-- a move of two files and the control file in a directory that also holds a bystander,
+    into a destination that holds another bystander: both bystanders stay -/
+example :
+    let B := Bytes.ofString
+    let s : State := ⟨[(B "other", .file 9), (B "a.tar.gz", .file 1), (B "a.dsc", .file 2)], .dir,
+      [(B "old", .dir true)], false⟩
+    let o := exec .move s (B "a.dsc") [B "a.tar.gz"]
+    o.ok = true ∧ get o.state.src (B "other") = some (.file 9) ∧
+    get o.state.dest (B "old") = some (.dir true) ∧ o.state.outside = false ∧
+    get o.state.src (B "a.dsc") = none ∧ get o.state.dest (B "a.dsc") = some (.file 2) := by
+  decide +kernel
+
+/-- control file last (copy/move): if the control file was not in the destination before
+    and is there afterwards, the operation succeeded and every referenced file is there
+    with the content/shape it had at the source -/
+theorem C20_control_last (op : Op) (s : State) (ctl : Bytes) (names : List Bytes)
+    (hop : op ≠ .remove) (h0 : get s.dest ctl = none)
+    (h1 : (get (exec op s ctl names).state.dest ctl).isSome) :
+    (exec op s ctl names).ok = true ∧
+    ∀ n ∈ names, get (exec op s ctl names).state.dest n = get s.src n := by
+  cases hok : (exec op s ctl names).ok
+  · rw [(Lemmas.Upload.exec_failure hop s ctl names h0 hok).1] at h1
+    cases h1
+  · exact ⟨rfl, fun n hn => (Lemmas.Upload.exec_success hop s ctl names hok).2 n
+      (List.mem_append_left _ hn)⟩
+
+/-- the hypotheses hold for a copy with a duplicate listed name and for a move -/
+example :
+    let B := Bytes.ofString
+    let s : State := ⟨[(B "a.tar.gz", .file 1), (B "b.tar.gz", .file 3), (B "a.dsc", .file 2)], .dir,
+      [(B "a.tar.gz", .file 7)], false⟩
+    get s.dest (B "a.dsc") = none ∧
+    (get (exec .copy s (B "a.dsc") [B "a.tar.gz", B "b.tar.gz", B "a.tar.gz"]).state.dest (B "a.dsc")).isSome ∧
+    (get (exec .move s (B "a.dsc") [B "a.tar.gz", B "b.tar.gz"]).state.dest (B "a.dsc")).isSome := by
+  decide +kernel
+
+/-- failure leaves no control file in the destination, and for a move the control file is
+    still at its source -/
+theorem C20_failure (op : Op) (s : State) (ctl : Bytes) (names : List Bytes)
+    (hop : op ≠ .remove) (h0 : get s.dest ctl = none) (hf : (exec op s ctl names).ok = false) :
+    get (exec op s ctl names).state.dest ctl = none ∧
+    (op = .move → get (exec op s ctl names).state.src ctl = get s.src ctl) :=
+  Lemmas.Upload.exec_failure hop s ctl names h0 hf
+
+/-- failures at every point: a missing second file (the first one has already moved), a
+    duplicate name under move, a control file that is a directory under copy (the partial
+    file is removed again), a destination slot occupied by a directory, a missing
+    destination, a destination that is a file -/
+example :
+    let B := Bytes.ofString
+    let src : Dir := [(B "a.tar.gz", .file 1), (B "a.dsc", .file 2)]
+    let s : State := ⟨src, .dir, [], false⟩
+    let o1 := exec .move s (B "a.dsc") [B "a.tar.gz", B "b.tar.gz"]
+    o1.ok = false ∧ get o1.state.dest (B "a.tar.gz") = some (.file 1) ∧ get o1.state.src (B "a.tar.gz") = none ∧
+    (exec .move s (B "a.dsc") [B "a.tar.gz", B "a.tar.gz"]).ok = false ∧
+    (exec .copy ⟨[(B "a.tar.gz", .file 1), (B "a.dsc", .dir false)], .dir, [], false⟩ (B "a.dsc") [B "a.tar.gz"]).ok = false ∧
+    (exec .copy ⟨src, .dir, [(B "a.tar.gz", .dir false)], false⟩ (B "a.dsc") [B "a.tar.gz"]).ok = false ∧
+    (exec .copy ⟨src, .missing, [], false⟩ (B "a.dsc") [B "a.tar.gz"]).ok = false ∧
+    (exec .move ⟨src, .file, [], false⟩ (B "a.dsc") [B "a.tar.gz"]).ok = false := by
+  decide +kernel
+
+/-- removal deletes the control file last: if removal fails the control file is untouched -/
+theorem C20_remove_last (s : State) (ctl : Bytes) (names : List Bytes)
+    (hf : (exec .remove s ctl names).ok = false) :
+    get (exec .remove s ctl names).state.src ctl = get s.src ctl :=
+  Lemmas.Upload.exec_remove_failure s ctl names hf
+
+/-- a listed name that is a non-empty directory: the first file is gone, the control file
+    is still there -/
+example :
+    let B := Bytes.ofString
+    let s : State := ⟨[(B "a.tar.gz", .file 1), (B "b", .dir true), (B "a.dsc", .file 2)], .missing, [], false⟩
+    let o := exec .remove s (B "a.dsc") [B "a.tar.gz", B "b"]
+    o.ok = false ∧ get o.state.src (B "a.tar.gz") = none ∧ get o.state.src (B "a.dsc") = some (.file 2) := by
+  decide +kernel
+
+/-- success: the handle points into the destination and all files (referenced ones and the
+    control file) are there, identical to the originals -/
+theorem C20_success (op : Op) (s : State) (ctl : Bytes) (names : List Bytes)
+    (hop : op ≠ .remove) (hs : (exec op s ctl names).ok = true) :
+    (exec op s ctl names).handleDest = true ∧
+    ∀ n ∈ names ++ [ctl], get (exec op s ctl names).state.dest n = get s.src n :=
+  Lemmas.Upload.exec_success hop s ctl names hs
+
+/-- success of a move that overwrites an existing destination file and moves an empty
+    directory, and of a copy with a duplicate name -/
+example :
+    let B := Bytes.ofString
+    let s : State := ⟨[(B "a.tar.gz", .file 1), (B "d", .dir false), (B "a.dsc", .file 2)], .dir,
+      [(B "a.tar.gz", .file 7)], false⟩
+    (exec .move s (B "a.dsc") [B "a.tar.gz", B "d"]).ok = true ∧
+    (exec .copy s (B "a.dsc") [B "a.tar.gz", B "a.tar.gz"]).ok = true := by
+  decide +kernel
+
+/-- every intermediate state of the file loop: the control file is not yet in the
+    destination -/
+theorem C20_prefix (op : Op) (s : State) (ctl : Bytes) (names : List Bytes) (k : Nat)
+    (_hop : op ≠ .remove) (h0 : get s.dest ctl = none) (hc : names.contains ctl = false)
+    (_hp : names.all plain = true) :
+    get (runFiles op s (names.take k)).1.dest ctl = none :=
+  (Lemmas.Upload.runFiles_take_dest op s ctl names k hc).trans h0
+
+example :
+    let B := Bytes.ofString
+    let s : State := ⟨[(B "a.tar.gz", .file 1), (B "b.tar.gz", .file 3), (B "a.dsc", .file 2)], .dir, [], false⟩
+    let names := [B "a.tar.gz", B "b.tar.gz"]
+    get s.dest (B "a.dsc") = none ∧ names.contains (B "a.dsc") = false ∧ names.all plain = true ∧
+    get (runFiles .copy s (names.take 1)).1.dest (B "a.tar.gz") = some (.file 1) := by
+  decide +kernel
+
 end GoDebian.Props.C20
